@@ -186,8 +186,30 @@ def shrink_batch(ctx, case, sig, rounds):
     return cur
 
 
-def process(ctx, results, label, shrink_rounds=0, count=True):
-    """book-keeping + verdicts for evaluated cases; returns (violating, l2_bad, matching_sets)"""
+def report(ctx, by_sig, shrink_rounds):
+    """one violation per defect class, on the smallest violating case (shrunk further, judged in Coq)"""
+    for s, lst in sorted(by_sig.items()):
+        ctx.tally("violating_cases." + s, len(lst))
+        case, ob, v = min(lst, key=lambda t: case_size(t[0]))
+        if shrink_rounds:
+            small = shrink_batch(ctx, case, s, shrink_rounds)
+            if small is not case:
+                (case, ob, v), = evaluate(ctx, [small], "shrunk")
+        ctx.violation(s, f"[{s}] specification (L1, evaluated in Coq) fails on {len(lst)} generated cases; smallest: "
+                      + describe(case, ob) +
+                      (f"; clauses routing={v['routing']} partition={v['partition']} histogram={v['hist']}, "
+                       f"model rule sets matching the implementation={v['matching']}, defective rules blamed={v['blamed']}"
+                       if v else ""), {"case": case})
+
+
+def merge(a, b):
+    for k, v in b.items():
+        a.setdefault(k, []).extend(v)
+    return a
+
+
+def process(ctx, results, label, count=True):
+    """book-keeping + verdicts for evaluated cases; returns (violating by signature, l2_bad, matching_sets)"""
     by_sig = {}
     l2_bad = []
     matchsets = []
@@ -234,17 +256,6 @@ def process(ctx, results, label, shrink_rounds=0, count=True):
             l2_bad.append((case, ob, "BAM header of an output differs from the input header"))
         if ob["rc"] == 0 and ob.get("hist_head_ok") is False:
             l2_bad.append((case, ob, "histogram header line"))
-    for s, lst in sorted(by_sig.items()):
-        ctx.tally("violating_cases." + s, len(lst))
-        case, ob, v = min(lst, key=lambda t: case_size(t[0]))
-        if shrink_rounds:
-            small = shrink_batch(ctx, case, s, shrink_rounds)
-            if small is not case:
-                (case, ob, v), = evaluate(ctx, [small], "shrunk")
-        ctx.violation(s, f"[{s}] specification (L1, evaluated in Coq) fails: " + describe(case, ob) +
-                      (f"; clauses routing={v['routing']} partition={v['partition']} histogram={v['hist']}, "
-                       f"model rule sets matching the implementation={v['matching']}, defective rules blamed={v['blamed']}"
-                       if v else ""), {"case": case})
     return by_sig, l2_bad, matchsets
 
 
@@ -288,15 +299,17 @@ def run(ctx):
     res = evaluate(ctx, cases, "random")
     for case, ob, v in res[:2] + res[-2:]:
         ctx.sample({"case": case, "impl": {k: ob[k] for k in ("rc", "outs", "hist", "error") if k in ob}, "verdict": v})
-    by_sig, l2_bad, matchsets = process(ctx, res, "random", shrink_rounds=ctx.n(6, 25))
+    by_sig, l2_bad, matchsets = process(ctx, res, "random")
 
     # (b) exhaustive small space
     ex = list(exhaustive_cases(ctx.n(2, 4)))
     res2 = evaluate(ctx, ex, "exh")
     ctx.extra["exhaustive_cases"] = len(ex)
     ctx.exhaustive = True
-    by_sig2, l2_bad2, matchsets2 = process(ctx, res2, "exhaustive", shrink_rounds=0)
-    # signatures only seen in the exhaustive stream are reported there; others already reported
+    by_sig2, l2_bad2, matchsets2 = process(ctx, res2, "exhaustive")
+    ctx.extra["violating_cases_random_stream"] = {k: len(v) for k, v in sorted(by_sig.items())}
+    ctx.extra["violating_cases_exhaustive_stream"] = {k: len(v) for k, v in sorted(by_sig2.items())}
+    merge(by_sig, by_sig2)
     l2_bad += l2_bad2
     matchsets += matchsets2
 
@@ -314,16 +327,18 @@ def run(ctx):
                             [{"why": why, "case": case, "impl": None if ob is None else
                               {k: ob[k] for k in ("rc", "outs", "hist", "error", "stderr") if k in ob}}
                              for case, ob, why in l2_bad])
-        if not (by_sig or by_sig2):
+        if not by_sig:
             # wider search: every case is judged against the specification in Coq anyway
             more = [sc.gen_case(rng) for _ in range(ctx.n(600, 4000))]
-            process(ctx, evaluate(ctx, more, "search"), "search", shrink_rounds=ctx.n(6, 25))
+            merge(by_sig, process(ctx, evaluate(ctx, more, "search"), "search")[0])
+    report(ctx, by_sig, ctx.n(6, 25))
 
 
 def replay(ctx, data):
     case = data["case"]
     res = evaluate(ctx, [case], "replay")
-    by_sig, l2_bad, _ = process(ctx, res, "replay", shrink_rounds=0)
+    by_sig, l2_bad, _ = process(ctx, res, "replay")
+    report(ctx, by_sig, 0)
     for case, ob, v in res:
         ctx.log("replay: " + describe(case, ob) + f" verdict={v}")
     if l2_bad:
